@@ -30,25 +30,46 @@ class XmlEventHandler(XmlHandler):
         if isinstance(source, etree.ElementTree):
             source = source.getroot()
 
-        if isinstance(source, etree.Element):
-            # The tree belongs to the caller, leave it intact
-            return self.process_context(iterwalk(source, {}), ns_map, clear=False)
+        try:
+            if isinstance(source, etree.Element):
+                # The tree belongs to the caller, leave it intact
+                ctx = iterwalk(source, {})
+                return self.process_context(ctx, ns_map, clear=False)
 
-        if self.parser.config.process_xinclude:
-            try:
-                root = etree.parse(source).getroot()  # nosec
-            except (LookupError, ValueError) as e:
-                raise ParserError(e)
+            if self.parser.config.process_xinclude:
+                ctx = iterwalk(self.parse_with_xinclude(source), {})
+            else:
+                ctx = iterdecode(etree.iterparse(source, EVENTS))  # nosec
 
-            base_url = get_base_url(self.parser.config.base_url, source)
-            loader = functools.partial(xinclude_loader, base_url=base_url)
+            return self.process_context(ctx, ns_map)
+        except RecursionError as e:
+            # The tree walk and the xinclude processor recurse per level
+            raise ParserError(e)
 
+    def parse_with_xinclude(self, source: Any) -> etree.Element:
+        """Parse the source into a tree and process the xinclude directives.
+
+        Args:
+            source: The xml source, a file resource or an input stream
+
+        Returns:
+            The root element of the complete tree.
+        """
+        try:
+            root = etree.parse(source).getroot()  # nosec
+        except (LookupError, ValueError) as e:
+            raise ParserError(e)
+
+        base_url = get_base_url(self.parser.config.base_url, source)
+        loader = functools.partial(xinclude_loader, base_url=base_url)
+
+        try:
             xinclude.include(root, loader=loader)
-            ctx = iterwalk(root, {})
-        else:
-            ctx = iterdecode(etree.iterparse(source, EVENTS))  # nosec
+        except (OSError, LookupError, ValueError, TypeError) as e:
+            # Missing or undecodable resources, directives without a href
+            raise ParserError(e)
 
-        return self.process_context(ctx, ns_map)
+        return root
 
     def process_context(
         self,
